@@ -331,7 +331,15 @@ def _entry_error_codes(kind, entry):
 
 
 def _check_error_isolation(ob, kind, with_doc, entries, doc):
-    """A method annotated with no errors must not list another method's annotated errors (4001 / 4002 / symbolic)."""
+    """A method annotated with no errors must not list another method's annotated errors (4001 / 4002 / symbolic);
+    a method annotated with errors documents exactly its own (OpenAPI, when an extractor renders error schemas)."""
+    # (the base extractor renders no error schemas, and put first in a stack it masks the docstring extractor)
+    if kind == 'openapi' and ob['stack'] in ('doc', 'pydantic'):
+        for i, a in enumerate(ob['ann']):
+            declared = {'shared_errors': {4001}, 'own_errors': {4002}}.get(a, set())
+            found = {c for c in _entry_error_codes(kind, _resolve(entries[i], doc)) if c in (4001, 4002)}
+            if found != declared:
+                raise Violation('documented-errors-differ-from-declared', (ob['ann'], i, sorted(found), sorted(declared)))
     for i, a in enumerate(ob['ann']):
         if a in ('shared_errors', 'own_errors'):
             continue
